@@ -174,4 +174,56 @@ VH_CMD(unmatched) {
             vhBool(!l.getUnmatchedInlineSuppressions().empty())};
 }
 
+// ---- how suppressions are given: parseLine / toString / parseFile / parseComment / parseMultiSuppressComment
+VH_CMD(pline) {
+    try {
+        const SuppressionList::Suppression s = SuppressionList::parseLine(a.at(0));
+        return {"ok", s.errorId, s.fileName, vhNum(s.lineNumber), s.symbolName, vhBool(s.isPolyspace)};
+    } catch (const std::runtime_error& e) {
+        return {"E", std::string(e.what()).substr(0, 12)};
+    }
+}
+
+VH_CMD(pfile) {
+    SuppressionList l;
+    std::istringstream istr(a.at(0));
+    const std::string err = l.parseFile(istr);
+    Fields out{vhBool(err.empty())};
+    for (const auto& s : l.getSuppressions()) {
+        out.push_back(s.errorId);
+        out.push_back(s.fileName);
+        out.push_back(vhNum(s.lineNumber));
+        out.push_back(s.symbolName);
+    }
+    return out;
+}
+
+VH_CMD(pcomment) {
+    SuppressionList::Suppression s;
+    std::string err;
+    if (!s.parseComment(a.at(0), &err))
+        return {"0"};
+    return {"1", s.errorId, s.symbolName, s.extraComment, vhBool(err.empty())};
+}
+
+VH_CMD(pmulti) {
+    std::string err;
+    const std::vector<SuppressionList::Suppression> v = SuppressionList::parseMultiSuppressComment(a.at(0), &err);
+    Fields out{vhBool(err.empty())};
+    for (const auto& s : v) {
+        out.push_back(s.errorId);
+        out.push_back(s.symbolName);
+    }
+    return out;
+}
+
+VH_CMD(tostr) {
+    SuppressionList::Suppression s;
+    s.errorId = a.at(0);
+    s.fileName = a.at(1);
+    s.lineNumber = static_cast<int>(vhToLL(a.at(2)));
+    s.symbolName = a.at(3);
+    return {s.toString()};
+}
+
 VH_MAIN()
